@@ -504,11 +504,19 @@ func (e *Engine) Run(tier string) {
 				cl[i] = x % 3
 				x /= 3
 			}
-			if ci > 0 && e.MaxW > 2 && cl[2] != 0 {
-				continue // second configuration: the third warrior is always the imp
+			maxW := e.MaxW
+			if ci > 0 && e.MaxW > 2 {
+				// second configuration: at most two warriors (with three the reachable
+				// set of a 6-cell core does not close within the tier's time)
+				if cl[2] != 0 {
+					continue
+				}
+				cl = cl[:2]
+				e.MaxW = 2
 			}
 			e.class = cl
 			e.search(tier)
+			e.MaxW = maxW
 		}
 		if e.Rep.Bound != "" {
 			bounds = append(bounds, e.Rep.Bound)
@@ -545,7 +553,7 @@ func (e *Engine) Run(tier string) {
 		}
 		e.Rep.Count("c13:many-warrior-histories")
 	}
-	e.Rep.Bound = strings.Join(bounds, " // ") + fmt.Sprintf("; each configuration partitioned into %d classes by the kinds of the warriors added (each class searched to closure separately; states shared between classes are counted once per class; under the second configuration a third warrior is always the imp); directed histories with 4..65 and 300 warriors (adds, spawns, two cycles, Reset, respawns, cycle, Run), every prefix checked", n)
+	e.Rep.Bound = strings.Join(bounds, " // ") + fmt.Sprintf("; each configuration partitioned into %d classes by the kinds of the warriors added (each class searched to closure separately; states shared between classes are counted once per class; the second configuration is searched with at most two warriors); directed histories with 4..65 and 300 warriors (adds, spawns, two cycles, Reset, respawns, cycle, Run), every prefix checked", n)
 }
 
 func (e *Engine) search(tier string) {
